@@ -1,5 +1,4 @@
-(* Termination of the walk _maps_are_matched of the proposed repair, and totality of the repaired
-   find() of ParallelSpecFinder. *)
+(* Termination of the walk _maps_are_matched (fix 97589e3), and totality of find() of ParallelSpecFinder as it is. *)
 From Coq Require Import ZArith List Bool Lia.
 From CSS Require Import Base.PyList Parallel.Model Parallel.Basics Parallel.First Parallel.Second
   Parallel.Matched Parallel.Fixed Parallel.Term Parallel.Term2.
